@@ -355,6 +355,13 @@ def check_junit(rec, out):
     perrs, cases = [], []
     for suite in root.iter("testsuite"):
         sname = suite.get("name", "")
+        # suite-level totals agree with the individual entries
+        kids = suite.findall("testcase")
+        n_fail = sum(1 for c in kids if c.find("failure") is not None)
+        n_err = sum(1 for c in kids if c.find("error") is not None)
+        tot = (suite.get("tests"), suite.get("failures"), suite.get("errors"))
+        if tot != (str(len(kids)), str(n_fail), str(n_err)):
+            out.append(("junit-totals", f"junit: suite {sname!r} says tests/failures/errors={tot}, it holds {len(kids)}/{n_fail}/{n_err}"))
         for case in suite.findall("testcase"):
             if sname == "Errors":
                 fl = case.find("failure")
